@@ -21,6 +21,7 @@ RULE = ("cases are trees over XML-legal names (ASCII and non-ASCII NCNames), pre
         ". Also: fragments (inner nodes, copies of inner nodes), the same objects exported again after in-place edits (attribute values, content, prefix, name, tail, children)")
 ASSUMPTIONS = [
     "two prefixes bound to one URI in one scope and default namespaces are outside the quantifier (never generated)",
+    "namespace names are plain URIs (no <, >, quotes or blanks); words containing a carriage return are left out of the sweeps",
     "content and tail are compared after strip() with None == '' (the exporter indents)",
     "EML exporter: qualified attributes, prefixes and namespace maps are not part of its contract (it predates them); the "
     "boilerplate attributes it adds to an eml root are ignored",
